@@ -28,6 +28,7 @@ def wTok : WOut → String
   | .threw .reserved => "reserved" | .threw .shortChar => "shortchar"
   | .threw .hasEq => "haseq" | .threw .hasLower => "haslower"
   | .threw .keyTooLong => "keytoolong" | .threw .valueTooLong => "valuetoolong"
+  | .threw .edgeBlank => "edgeblank" | .threw .keyNonPrintable => "keynonprint" | .threw .valueNonPrintable => "valuenonprint"
 
 def outTok (tag : String) : Out → String
   | .w o => "w:" ++ wTok o
